@@ -32,6 +32,7 @@ fn main() {
         "kernel" => probe::<Kernel>(&bytes),
         "programinfo" => probe::<ProgramInfo>(&bytes),
         "stackoutputs" => probe::<StackOutputs>(&bytes),
+        "libpath" => probe::<miden_assembly::LibraryPath>(&bytes),
         "proof" => match miden_air::ExecutionProof::from_bytes(&bytes) { Ok(_) => "ACCEPTED".into(), Err(e) => format!("REJECTED {e}") },
         _ => "unknown type".to_string(),
     });
